@@ -410,6 +410,8 @@ func runStack(id string, toks []string) (res string) {
 			} else {
 				emit(fmt.Sprintf("B=%d", r.status))
 			}
+		case "STALL":
+			emit(w.stalledSubscriber(p[1], p[2], p[3], p[4]))
 		case "STORM":
 			emit(w.eventStorm(p[1], p[2]))
 		case "VR":
@@ -1156,4 +1158,63 @@ func (w *world) eventStorm(cn, ns string) string {
 		return fmt.Sprintf("STORM=only-%d-of-%d-changes-notified", next-1, n)
 	}
 	return "STORM=ok"
+}
+
+// stalledSubscriber: STALL:<conn>:<seconds>:<n>:<size>   the connection (verified, subscribed to the string 4.16) stops
+// reading for <seconds> while the application sets n values of <size> bytes (far more than the socket buffers hold, so the
+// accessory's writes block); then it reads on: every event must arrive, intact and in order, and the stream must still
+// decrypt.
+func (w *world) stalledSubscriber(cn, secs, ns, sz string) string {
+	cc := w.conns[cn]
+	if cc == nil || cc.dead {
+		return "STALL=noconn"
+	}
+	sec, _ := strconv.Atoi(secs)
+	n, _ := strconv.Atoi(ns)
+	size, _ := strconv.Atoi(sz)
+	c := w.find("4.16")
+	if c == nil {
+		return "STALL=nochar"
+	}
+	pad := strings.Repeat("x", size)
+	fin := make(chan struct{})
+	go func() {
+		for i := 1; i <= n; i++ {
+			c.UpdateValue(fmt.Sprintf("%06d%s", i, pad))
+		}
+		close(fin)
+	}()
+	time.Sleep(time.Duration(sec) * time.Second)
+	next := 1
+	deadline := time.Now().Add(60 * time.Second)
+	for next <= n && time.Now().Before(deadline) {
+		cc.c.SetReadDeadline(time.Now().Add(5 * time.Second))
+		r, isEvent, err := cc.readMessage("GET")
+		if err != nil {
+			cc.dead = true
+			return fmt.Sprintf("STALL=stream-broken-at-event-%d-of-%d(%s)", next, n, strings.Replace(err.Error(), " ", "_", -1))
+		}
+		if !isEvent {
+			continue
+		}
+		var ev struct {
+			Characteristics []struct {
+				Value string
+			} `json:"characteristics"`
+		}
+		if json.Unmarshal(r.body, &ev) != nil || len(ev.Characteristics) != 1 || len(ev.Characteristics[0].Value) != 6+size ||
+			ev.Characteristics[0].Value[:6] != fmt.Sprintf("%06d", next) {
+			return fmt.Sprintf("STALL=event-%d-of-%d-not-intact", next, n)
+		}
+		next++
+	}
+	select {
+	case <-fin:
+	case <-time.After(10 * time.Second):
+		return "STALL=application-still-blocked"
+	}
+	if next != n+1 {
+		return fmt.Sprintf("STALL=only-%d-of-%d", next-1, n)
+	}
+	return "STALL=ok"
 }
